@@ -16,7 +16,8 @@ void vp_leave(u32 tid, u32 w) { holders--; }
 void vp_try_result(u32 tid, u32 ok) { try_ok[tid] = ok; if (ok) VP_ASSERT(holders == 0, "try_lock reported success while the mutex was held"); }
 /* ---- stubs */
 #include "addr_stubs.h"
-u8 _ZN3tbb6detail2d021timed_spin_wait_untilIZNS0_2d115waitable_atomicIbE4waitEbmSt12memory_orderEUlvE_EEbT_(struct MTX_WAIT_CLOSURE* closure /* byval lambda {this,&order,&old}; type name from spec defines */) {
+#include "closure_stub.h"
+VP_CLOSURE_STUB(_ZN3tbb6detail2d021timed_spin_wait_untilIZNS0_2d115waitable_atomicIbE4waitEbmSt12memory_orderEUlvE_EEbT_) {
   VP_POLL(_ZNK3tbb6detail2d118delegated_functionIZNS1_15waitable_atomicIbE4waitEbmSt12memory_orderEUlvE_EclEv, closure)
 }
 #define THR(s) vp_thr_mutex_##s
